@@ -566,6 +566,33 @@ pub fn eval_query(op: &Op, zh: Option<&ZH>, toh: Option<&ZH>, buf: Option<&mut V
                 drop(before);
             });
         }
+        Op::FindAt { z: zr_, pick, delta, n, buf: bi } => {
+            let z = need!(zh);
+            // derive the searched local time from the zone itself (harness-side use of the conversion)
+            let tr = z.transitions();
+            let fields = harness(|| {
+                if tr.is_empty() {
+                    return None;
+                }
+                let i = (*pick % tr.len() as u64) as usize;
+                let t = tr[i].unix_leap_time().checked_add(*delta)?;
+                let before = if i == 0 { 0 } else { tr[i - 1].local_time_type_index() };
+                let idx = if (*pick / tr.len() as u64) % 2 == 0 { before } else { tr[i].local_time_type_index() };
+                let off = z.local_time_types().get(idx)?.ut_offset() as i64;
+                let u = UtcDateTime::from_timespec(t.checked_add(off)?, 0).ok()?;
+                Some(Fields { y: u.year(), mo: u.month(), d: u.month_day(), h: u.hour(), mi: u.minute(), s: u.second(), ns: if *pick % 3 == 0 { 0 } else { (*pick % 1_000_000_000) as u32 } })
+            });
+            match fields {
+                None => out.push_str("skip(no transition)"),
+                Some(f) => {
+                    harness(|| {
+                        let _ = write!(out, "at {} ", f.text());
+                    });
+                    let inner = Op::FindN { z: zr_.clone(), f, n: *n, buf: *bi };
+                    return eval_query(&inner, zh, toh, buf, clock_now, out);
+                }
+            }
+        }
         Op::Format { t, ns, .. } => {
             let z = need!(zh);
             let mut sb = StackBuf { b: [0; 160], n: 0, overflow: false };
@@ -1148,7 +1175,7 @@ pub fn run_op<'c>(ctx: &'c Ctx<'c>, me: usize, st: &mut ActorState<'c>, opi: usi
             drop(t);
             finish_query(armed, op, &q, &mut retained, &mut panicked);
         }
-        Op::FindN { z, buf, .. } => {
+        Op::FindN { z, buf, .. } | Op::FindAt { z, buf, .. } => {
             // the buffer is taken out of the actor state so that the zone may borrow the state
             let mut b = std::mem::take(&mut st.bufs[buf % NBUFS]);
             if let Some(rec) = rec.as_mut() {
@@ -1662,10 +1689,10 @@ fn alone_in_process(rec: &OpRec) -> Option<(String, Option<String>)> {
             }
             Some((out, div))
         }
-        Op::Lookup { .. } | Op::FromTs { .. } | Op::FromTotal { .. } | Op::Find { .. } | Op::Format { .. } | Op::Now { .. } | Op::Current { .. } | Op::UtcNow | Op::Project { .. } | Op::UtcProject { .. } | Op::FindN { .. } => {
+        Op::Lookup { .. } | Op::FromTs { .. } | Op::FromTotal { .. } | Op::Find { .. } | Op::Format { .. } | Op::Now { .. } | Op::Current { .. } | Op::UtcNow | Op::Project { .. } | Op::UtcProject { .. } | Op::FindN { .. } | Op::FindAt { .. } => {
             let needs_z = !matches!(rec.op, Op::UtcNow | Op::UtcProject { .. });
             let zref = match &rec.op {
-                Op::Lookup { z, .. } | Op::FromTs { z, .. } | Op::FromTotal { z, .. } | Op::Find { z, .. } | Op::Format { z, .. } | Op::Now { z } | Op::Current { z } | Op::Project { z, .. } | Op::FindN { z, .. } => Some(z.clone()),
+                Op::Lookup { z, .. } | Op::FromTs { z, .. } | Op::FromTotal { z, .. } | Op::Find { z, .. } | Op::Format { z, .. } | Op::Now { z } | Op::Current { z } | Op::Project { z, .. } | Op::FindN { z, .. } | Op::FindAt { z, .. } => Some(z.clone()),
                 _ => None,
             };
             let toref = match &rec.op {
